@@ -13,7 +13,7 @@ def setup(rng, mode=None, owners=False, links=False, bad=False, popts=False, rel
     cmds = []
     hist = None
     if mode == 0:                                   # econf_readDirs*, process-wide drop-in directory list
-        layers = [b"/usr/etc", b"/etc"]
+        layers = rng.choice([[b"/usr/etc", b"/etc"]] * 5 + [[b"/usr:v2/etc", b"/e;tc"]])           # any legal directory name
         cmds += trees.populate(rng, layers, name, sfx, confdirs, owners=owners, links=links)
         if confdirs: cmds.append("confdirs " + ",".join(enc(x) for x in confdirs))
         rl = [l.lstrip(b"/") for l in layers] if relative else layers      # the working directory is the root of the tree
